@@ -47,6 +47,7 @@ fn to_r(f: &Feature) -> RFeature {
 
 const TAGS0: &[&str] = &["N", "V", "P"];
 const TAGS1: &[&str] = &["x", "y-z", "w w"];
+const TAGS2: &[&str] = &["k1", "k2", "k3"];
 
 #[derive(Clone, Copy, PartialEq, Eq, Debug)]
 pub enum CorpusClass {
@@ -102,11 +103,11 @@ pub fn gen_train_case(rng: &mut Rng, lo: u8, hi: u8, class: CorpusClass, with_ta
         CorpusClass::SingleSentence | CorpusClass::SingleChar => 1,
         _ => rng.urange(2, 12),
     };
-    let cat_pools: [&[&str]; 2] = [TAGS0, TAGS1];
+    let cat_pools: [&[&str]; 3] = [TAGS0, TAGS1, TAGS2];
     // per-token preferred tags make "single tag" tokens likely, noise makes ambiguous ones
-    let mut pref: BTreeMap<String, [usize; 2]> = BTreeMap::new();
+    let mut pref: BTreeMap<String, [usize; 3]> = BTreeMap::new();
     let mut corpus = vec![];
-    let n_tags = if with_tags && class != CorpusClass::Untagged { rng.urange(1, 2) } else { 0 };
+    let n_tags = if with_tags && class != CorpusClass::Untagged { rng.urange(1, 3) } else { 0 };
     for _ in 0..n_sent {
         let n = if class == CorpusClass::SingleChar { 1 } else { rng.urange(1, 10) };
         let chars = text::text_from(rng, &alpha, n);
@@ -129,7 +130,7 @@ pub fn gen_train_case(rng: &mut Rng, lo: u8, hi: u8, class: CorpusClass, with_ta
         if n_tags > 0 {
             for sp in ref_partition(n, &labels) {
                 let surf: String = chars[sp.start..sp.end].iter().collect();
-                let p = *pref.entry(surf).or_insert([rng.below(3), rng.below(3)]);
+                let p = *pref.entry(surf).or_insert([rng.below(3), rng.below(3), rng.below(3)]);
                 let mut ts = vec![];
                 for (j, pool) in cat_pools.iter().enumerate().take(n_tags) {
                     let absent = match class {
@@ -699,6 +700,7 @@ pub fn run_c12(ctx: &mut Ctx, from: u64, to: u64) {
             }
             ctx.count("categories_with_single_tag", cats.iter().filter(|c| c.len() == 1).count() as u64);
             ctx.count("categories_with_several_tags", cats.iter().filter(|c| c.len() >= 2).count() as u64);
+            ctx.flag("tokens_with_three_ambiguous_categories", cats.iter().filter(|c| c.len() >= 2).count() >= 3);
         }
         if !ok {
             continue;
